@@ -99,7 +99,7 @@ def gen_case(rng: random.Random, tier: str) -> dict:
         "broken_page": broken,
         # the user does not wait for recovery: at about a quarter of the crash points a few
         # edits (incl. deleting / renaming pages) happen between the kill and the rerun
-        "between": [gen.gen_edit(rng, feats, _BETWEEN_WEIGHTS) for _ in range(rng.randint(1, 2))],
+        "between": [gen.gen_edit(rng, feats, _BETWEEN_WEIGHTS) for _ in range(rng.randint(1, 2))] if rng.random() < 0.6 else [{"e": "undo_everything"}],
         "between_salt": rng.randrange(4),
         # thorough: a second kill during the rerun at a seeded boundary, for a share of the crash points
         "second_crash": [rng.random() for _ in range(4)] if tier == "thorough" else [],
@@ -188,6 +188,7 @@ def execute(case: dict, scratch: str) -> dict:
         if o.status != "ok":
             rec.stat("skipped:prior-create-failed")
             return rec.result()
+        indexed_snapshot = ob.read_files(sim.zdir, (".zo",))  # what the index was built from
         reports = user.apply_edits(sim.zdir, case.get("edits", []), sim.day)
         rec.stat("edits_applied", sum(1 for r in reports if r.get("applied")))
         rec.stat("edits_discarded", sum(1 for r in reports if not r.get("applied")))
@@ -265,9 +266,15 @@ def execute(case: dict, scratch: str) -> dict:
             bt, bz = before_text, before_zids
             # (not for explicit-path commands: those do not promise to notice deleted / renamed pages)
             if case.get("between") and not cmd.get("paths") and (len(plans) < 3 or (plans.index(plan) + case.get("between_salt", 0)) % 4 == 0):
-                reports = user.apply_edits(twin.zdir, case["between"], twin.day)
+                if case["between"] and case["between"][0].get("e") == "undo_everything":
+                    # the user undoes every edit made since the directory was last indexed:
+                    # all pages are byte-identical to what the index was built from again
+                    reports = _undo_everything(twin, indexed_snapshot if case.get("prior") else None)
+                else:
+                    reports = user.apply_edits(twin.zdir, case["between"], twin.day)
                 if any(r.get("applied") for r in reports):
                     rec.probe("user-edits-between-kill-and-rerun")
+                    rec.probe("user-undoes-all-edits-between-kill-and-rerun", int(any(r.get("undo") for r in reports)))
                     rec.probe("page-deleted-or-renamed-between-kill-and-rerun", int(any("deleted" in r or "renamed" in r for r in reports)))
                     cls = cls + "+user-edits"
                     bt, bz = _user_texts(twin.zdir), _primary_zids(twin.zdir)
@@ -306,6 +313,23 @@ def execute(case: dict, scratch: str) -> dict:
             twin.destroy()
     rec.stat("boundary_classes", len(classes))
     return rec.result(first_violation)
+
+
+def _undo_everything(twin: core.Sim, snapshot: Optional[dict]) -> list[dict]:
+    if not snapshot:
+        return [{"applied": False, "why": "nothing was indexed before"}]
+    now = ob.read_files(twin.zdir, (".zo",))
+    changed = False
+    for rel in sorted(set(now) - set(snapshot)):
+        os.unlink(os.path.join(twin.zdir, rel))
+        changed = True
+    for rel, data in sorted(snapshot.items()):
+        if now.get(rel) != data:
+            os.makedirs(os.path.dirname(os.path.join(twin.zdir, rel)), exist_ok=True)
+            with core._real_open(os.path.join(twin.zdir, rel), "wb") as f:
+                f.write(data)
+            changed = True
+    return [{"applied": changed, "undo": True, "deleted": True} if changed else {"applied": False}]
 
 
 def _strip(e: dict) -> dict:
